@@ -163,14 +163,60 @@ pub fn records() -> Vec<RecordBuf> {
     vec![r0, r1, r2]
 }
 
-/// The four record sets of C20: empty header + nothing, header only, 1 record, 3 records.
+/// An unplaced unmapped read with bases and qualities (valid under an empty header).
+pub fn headerless_record(name: &str) -> RecordBuf {
+    RecordBuf::builder()
+        .set_name(name)
+        .set_flags(Flags::UNMAPPED)
+        .set_sequence(Sequence::from(b"ACGTN".to_vec()))
+        .set_quality_scores(QualityScores::from(vec![20, 21, 22, 23, 2]))
+        .build()
+}
+
+/// Header with 3000 additional reference sequences (~190 KB of text: the BAM / SAM.gz header
+/// spans several BGZF blocks and the first block is larger than an 8 KiB `BufReader` window).
+pub fn header_large() -> sam::Header {
+    let mut text = String::new();
+    let base = header_text();
+    // keep @HD first, @SQ together, then the rest
+    let mut lines: Vec<&str> = base.lines().collect();
+    let tail: Vec<&str> = lines.split_off(3);
+    for l in &lines {
+        text.push_str(l);
+        text.push('\n');
+    }
+    let mut x: u64 = 0x243f6a8885a308d3;
+    for i in 0..3000 {
+        x = x.wrapping_mul(6364136223846793005).wrapping_add(1442695040888963407);
+        let _ = writeln!(
+            text,
+            "@SQ\tSN:c{i:04}_{:06x}\tLN:{}\tM5:{:032x}",
+            (x >> 40) & 0xffffff,
+            1000 + (x >> 20) % 100_000,
+            (x as u128) << 64 | (x.rotate_left(17) as u128)
+        );
+    }
+    for l in &tail {
+        text.push_str(l);
+        text.push('\n');
+    }
+    text.parse().expect("gdocs: large header text")
+}
+
+/// The record sets of C20: empty header + nothing, header only, 1 record, 3 records, a
+/// 3002-reference header with 1 record, and two header-less one-record files.
 pub fn docs() -> Vec<AlnDoc> {
     let recs = records();
     vec![
         AlnDoc { name: "empty", header: sam::Header::default(), records: vec![] },
         AlnDoc { name: "header-only", header: header_full(), records: vec![] },
         AlnDoc { name: "1-record", header: header_full(), records: recs[..1].to_vec() },
-        AlnDoc { name: "3-records", header: header_full(), records: recs },
+        AlnDoc { name: "3-records", header: header_full(), records: recs.clone() },
+        AlnDoc { name: "large-header", header: header_large(), records: recs[..1].to_vec() },
+        // header-less files whose first bytes as SAM text are a read name that begins like a
+        // binary magic number ("BAM\x01" cannot occur in SAM text, "BAM" and "CRAM" can)
+        AlnDoc { name: "headerless-read-named-BAMBOO", header: sam::Header::default(), records: vec![headerless_record("BAMBOO")] },
+        AlnDoc { name: "headerless-read-named-CRAMPON", header: sam::Header::default(), records: vec![headerless_record("CRAMPON")] },
     ]
 }
 
